@@ -642,9 +642,10 @@ def build_system(d):
     import atomman as am
     np = _np()
     props = {}
+    idt = d.get('idt') or {}
     for name, (is_int, shape, arr) in d['props'].items():
-        props[name] = np.array(arr, dtype=int if is_int else float).reshape((len(d['atype']),) + tuple(shape))
-    atoms = am.Atoms(atype=np.array(d['atype'], dtype=int), pos=np.array(d['pos'], dtype=float), **props)
+        props[name] = np.array(arr, dtype=np.dtype(idt.get(name, 'int64')) if is_int else float).reshape((len(d['atype']),) + tuple(shape))
+    atoms = am.Atoms(atype=np.array(d['atype'], dtype=np.dtype(idt.get('atype', 'int64'))), pos=np.array(d['pos'], dtype=float), **props)
     box = am.Box(vects=np.array(d['vects'], dtype=float), origin=np.array(d['origin'], dtype=float))
     kw = {}
     if d.get('symbols') is not None:
@@ -714,12 +715,18 @@ def gen_box(rng, regime, lammps=True):
     return vects, origin
 
 
-def gen_positions(rng, regime, vects, origin, n):
-    """positions inside, outside and exactly on faces (grid: exact dyadic relative coordinates)."""
+FAR_CELLS = [127, 128, 129, 255, 256, 257, 1000, 32767, 32768, 32769, 65535, 65536, 65537, 100000]
+
+
+def gen_positions(rng, regime, vects, origin, n, pbc=None):
+    """positions inside, outside and exactly on faces (grid: exact dyadic relative coordinates); with `pbc`, now and
+    then an atom hundreds or tens of thousands of cells away along a periodic direction (an unwrapped trajectory):
+    image flags beyond what 8 or 16 bits hold."""
     V = [[Fraction(v) for v in r] for r in vects]
     O = [Fraction(v) for v in origin]
     pos = []
     mode = rng.choice(['inside', 'mixed', 'mixed', 'faces', 'far'])
+    veryfar = pbc is not None and any(pbc) and rng.random() < 0.08
     for _ in range(n):
         if regime == 'grid':
             s = []
@@ -736,6 +743,11 @@ def gen_positions(rng, regime, vects, origin, n):
             rngs = {'inside': (0.02, 0.98), 'mixed': (-1.5, 2.5), 'faces': (-0.3, 1.3), 'far': (-4.0, 5.0)}[mode]
             s = [rng.uniform(*rngs) for _i in range(3)]
             p = [sum(s[i] * vects[i][j] for i in range(3)) + origin[j] for j in range(3)]
+        if veryfar and rng.random() < 0.5:
+            i = rng.choice([i for i in range(3) if pbc[i]])
+            m = rng.choice(FAR_CELLS) * rng.choice([1, -1])
+            p = [float(Fraction(p[j]) + m * V[i][j]) for j in range(3)] if regime == 'grid' else \
+                [p[j] + m * vects[i][j] for j in range(3)]
         pos.append(p)
     return pos
 
@@ -758,6 +770,34 @@ def prop_shape(nc):
     return tuple(nc) if isinstance(nc, (tuple, list)) else () if nc == 1 else (nc,)
 
 
+INT_DTYPES = ['int8', 'int16', 'int32', 'uint8', 'uint16', 'uint32', 'uint64']
+
+
+def int_dtypes_for(lo, hi, margin=0):
+    """integer types (other than the usual int64) that hold every value in lo..hi (+margin above)."""
+    np = _np()
+    return [t for t in INT_DTYPES if np.iinfo(t).min <= lo and hi + margin <= np.iinfo(t).max]
+
+
+def pick_int_dtypes(rng, d, p=0.25):
+    """atomman keeps the integer type an array comes with (atype read from a binary file as uint8, ids as uint32,
+    molecule ids as int16): the written integers must not depend on it."""
+    if rng.random() >= p:
+        return
+    idt = {}
+    n = len(d['atype'])
+    if rng.random() < 0.7:
+        idt['atype'] = rng.choice(int_dtypes_for(1, max(d['atype']) + 3))
+    for name, (is_int, _shape, arr) in d['props'].items():
+        if is_int and rng.random() < 0.7:
+            vals = [v for r in arr for v in r]
+            ok = int_dtypes_for(min(vals), max(vals), margin=2 * n + 8 if name == 'atom_id' else 0)
+            if ok:
+                idt[name] = rng.choice(ok)
+    if idt:
+        d['idt'] = idt
+
+
 def gen_desc(rng, regime, props=(), lammps=True, nmax=10, many_types=0.06):
     n = rng.randint(1, nmax)
     vects, origin = gen_box(rng, regime, lammps)
@@ -773,13 +813,13 @@ def gen_desc(rng, regime, props=(), lammps=True, nmax=10, many_types=0.06):
         atype = [t + 1 for t in atype]            # type 1 absent
     natypes = max(atype)
     d = {'pbc': [rng.random() < 0.6 for _ in range(3)], 'vects': vects, 'origin': origin, 'atype': atype,
-         'natypes': natypes, 'pos': gen_positions(rng, regime, vects, origin, n), 'props': {}, 'symbols': None,
-         'regime': regime}
+         'natypes': natypes, 'props': {}, 'symbols': None, 'regime': regime}
     r = rng.random()
     if r < 0.3:
         d['pbc'] = [True, True, True]
     elif r < 0.4:
         d['pbc'] = [False, False, False]
+    d['pos'] = gen_positions(rng, regime, vects, origin, n, d['pbc'])
     for name, is_int, nc in props:
         shape = prop_shape(nc)
         ncomp = 1
@@ -831,7 +871,40 @@ FORMATS_F = ['f13', 'f13', 'f13', 'f5', 'f8', 'f3', 'f16', 'f1', 'e13', 'e8', 'e
 # ---- the real calls ---------------------------------------------------------------------
 
 class ChannelMismatch(Exception):
-    """what reached a file / stream is not what the same call returns as a string."""
+    """what reached a file / stream is not what the same call returns as a string (clause 'channel'); the dump
+    changed the system it was given ('system-changed'); the same object dumped twice gives two files ('second-dump')."""
+
+    def __init__(self, msg, clause='channel'):
+        super().__init__(msg)
+        self.clause = clause
+
+
+def system_snapshot(system, positions=True):
+    """bytes of everything a file is written from: cell, periodicity, every per-atom array (dtype and shape
+    included), symbols, masses."""
+    np = _np()
+    snap = {'pbc': np.array(system.pbc), 'symbols': tuple(system.symbols), 'masses': tuple(system.masses),
+            'natoms': system.natoms}
+    if positions:          # wrapping (data file without safecopy) moves atoms and extends the cell along non-periodic directions
+        snap.update({'box.vects': np.array(system.box.vects), 'box.origin': np.array(system.box.origin)})
+    for name in system.atoms_prop():
+        if name == 'pos' and not positions:
+            continue
+        a = system.atoms.view[name]
+        snap['atoms.' + name] = (str(a.dtype), a.shape, a.tobytes())
+    return snap
+
+
+def snapshot_diff(a, b):
+    np = _np()
+    out = []
+    for k in sorted(set(a) | set(b)):
+        x, y = a.get(k), b.get(k)
+        same = (x is not None and y is not None and
+                (np.array_equal(x, y) and x.dtype == y.dtype if hasattr(x, 'dtype') else x == y))
+        if not same:
+            out.append(k if x is not None and y is not None else f'{k} ({"added" if x is None else "removed"})')
+    return out
 
 
 PREFILL = '# earlier content of the stream\n'
@@ -864,7 +937,23 @@ def _dump_via(build, fmt, out, pre=False, **kw):
     must be what the same call returns as a string (after the earlier text, for a stream).
     -> (text, other return values)"""
     if out is None:
-        r = build().dump(fmt, **kw)
+        system = build()
+        wraps = fmt == 'atom_data' and not kw.get('safecopy')      # documented: the caller's system gets wrapped
+        before = system_snapshot(system, positions=not wraps)
+        r = system.dump(fmt, **kw)
+        text = r if isinstance(r, str) else r[0]
+        changed = snapshot_diff(before, system_snapshot(system, positions=not wraps))
+        if changed:
+            raise ChannelMismatch(f'the dump changed the system it was given: {changed}', 'system-changed')
+        if system.natoms > 20000:
+            return (r, None) if isinstance(r, str) else (r[0], r[1:])
+        # the same object once more: what a writer remembers about / leaves behind in the system must not show
+        r2 = system.dump(fmt, **kw)
+        text2 = r2 if isinstance(r2, str) else r2[0]
+        if text2 != text and not wraps:
+            k = next((i for i, (a, b) in enumerate(zip(text, text2)) if a != b), min(len(text), len(text2)))
+            raise ChannelMismatch(f'the same system dumped twice in a row gives two different files: first difference at '
+                                  f'character {k}: {text[k:k + 40]!r} vs {text2[k:k + 40]!r}', 'second-dump')
         return (r, None) if isinstance(r, str) else (r[0], r[1:])
     if out == 'stream':
         import io
@@ -924,13 +1013,13 @@ def build_potential(spec):
     return _pot_cache[key]
 
 
-def real_data(d, style, units, ff, natypes=None, fname=None, opts=None, pre=False, potential=None):
+def real_data(d, style, units, ff, natypes=None, fname=None, opts=None, pre=False, potential=None, ntform=None):
     """`style`, `units`, `natypes` are the ARGUMENTS of the call (None = left out).
     -> ('ok', text, info | None) | (errclass, message)"""
     try:
         kw = dict(opts or {})
         if natypes is not None:
-            kw['natypes'] = natypes
+            kw['natypes'] = scalar_form(natypes, ntform)
         if style is not None:
             kw['atom_style'] = style
         if units is not None:
@@ -950,7 +1039,7 @@ def real_data(d, style, units, ff, natypes=None, fname=None, opts=None, pre=Fals
             return ('err:value', f'dump returned {info!r} instead of the command snippet')
         return ('ok', text, info)
     except ChannelMismatch as e:
-        return ('err:channel', str(e))
+        return ('err:channel', str(e), e.clause)
     except Exception as e:  # noqa
         return (err_class(e), f'{type(e).__name__}: {e}')
 
@@ -1057,25 +1146,45 @@ def real_dump(d, units, ff, prop_names=None, timestep=0, out=None, explicit=None
             kw['prop_name'] = list(prop_names)
         return ('ok', _dump_via(build, 'atom_dump', out, pre, lammps_units=units, float_format=fmt_py(ff), **kw)[0])
     except ChannelMismatch as e:
-        return ('err:channel', str(e))
+        return ('err:channel', str(e), e.clause)
     except Exception as e:  # noqa
         return (err_class(e), f'{type(e).__name__}: {e}')
 
 
-def real_poscar(d, ff, coordstyle, scale, header, symbols, out=None, pre=False):
+def real_poscar(d, ff, coordstyle, scale, header, symbols, out=None, pre=False, sform=None, symform=None):
     try:
         kw = {}
         if symbols is not None:
-            kw['symbols'] = symbols
+            kw['symbols'] = tuple(symbols) if symform == 'tuple' and not isinstance(symbols, str) else symbols
         return ('ok', _dump_via(lambda big=False: build_system(bigger_desc(d) if big else d), 'poscar', out, pre,
-                                header=header, coordstyle=coordstyle, box_scale=scale, float_format=fmt_py(ff), **kw)[0])
+                                header=header, coordstyle=coordstyle, box_scale=scalar_form(scale, sform),
+                                float_format=fmt_py(ff), **kw)[0])
     except ChannelMismatch as e:
-        return ('err:channel', str(e))
+        return ('err:channel', str(e), e.clause)
     except Exception as e:  # noqa
         return (err_class(e), f'{type(e).__name__}: {e}')
 
 
-def real_table(d, ff, cols, units, header, out=None, pre=False, defaults=False):
+def flag_form(b, form):
+    """a flag given as a bool, as 0 / 1 or as a numpy bool (the result of a comparison of numpy values)."""
+    if form == 'int':
+        return int(bool(b))
+    if form == 'np':
+        return _np().bool_(b)
+    return bool(b)
+
+
+def scalar_form(v, form):
+    """a whole or dyadic number given as python int / float or a numpy scalar."""
+    np = _np()
+    if form in (None, 'float'):
+        return v
+    if form == 'int':
+        return int(v)
+    return getattr(np, form)(v)
+
+
+def real_table(d, ff, cols, units, header, out=None, pre=False, defaults=False, hform=None):
     """cols: list of (prop, unitspec, names) ; unitspec 'none' | 'scaled' | kind.  `defaults`: the writer is called
     without any column selection (all per-atom properties under their default names, no conversion)."""
     from atomman.lammps import style
@@ -1097,9 +1206,9 @@ def real_table(d, ff, cols, units, header, out=None, pre=False, defaults=False):
                     unit.append('*'.join(lu[p] for p in us.split('*')))
             kw.update({'prop_name': [c[0] for c in cols], 'table_name': [c[2] for c in cols], 'unit': unit})
         return ('ok', _dump_via(lambda big=False: build_system(bigger_desc(d) if big else d), 'table', out, pre,
-                                header=header, float_format=fmt_py(ff), **kw)[0])
+                                header=flag_form(header, hform), float_format=fmt_py(ff), **kw)[0])
     except ChannelMismatch as e:
-        return ('err:channel', str(e))
+        return ('err:channel', str(e), e.clause)
     except Exception as e:  # noqa
         return (err_class(e), f'{type(e).__name__}: {e}')
 
@@ -1865,7 +1974,9 @@ def check_dump(d, units, ff, parsed, timestep=0):
             if all(x in cols for x in names3):
                 s = [p_num(row[cols.index(x)]) for x in names3]
                 p = cart_of(s, W, WO)
-                kk = 3 + 3 * math.ceil(max(abs(x) for r in W for x in r))
+                # each scaled number is off by a print quantum (times the cell vector it multiplies), each entry of the
+                # cell rebuilt from the printed bounds by a few quanta (times the scaled number: an atom 32769 cells away)
+                kk = 3 + 3 * math.ceil(max(abs(x) for r in W for x in r)) + 4 * math.ceil(sum(abs(x) for x in s))
                 for j in range(3):
                     ck.num(f'unscaled {names3[j]}[{k}]', p[j], P[k][j] / lf, kk)
     if 'id' in cols:
@@ -2055,7 +2166,9 @@ def gen_data_case(rng, i, wu_p=0.25, raw=0.12):
         opts['return_info'] = False
     if rng.random() < 0.1:
         add_namesake(rng, d)
-    c = {'kind': 'data', 'd': d, 'style': style, 'units': units, 'ff': ff, 'natypes': natypes, 'fname': fname,
+    pick_int_dtypes(rng, d)
+    ntform = rng.choice([None, None, 'int64', 'int32', 'uint8', 'int16']) if natypes is not None else None
+    c = {'kind': 'data', 'ntform': ntform, 'd': d, 'style': style, 'units': units, 'ff': ff, 'natypes': natypes, 'fname': fname,
          'opts': opts, 'pre': pre, 'wu': gen_wu(rng, wu_p)}
     if rng.random() < 0.15:
         add_potential(rng, c)
@@ -2144,6 +2257,10 @@ def gen_dump_case(rng, i, wu_p=0.25, raw=0.12, specials=0.0):
             # ids beyond 32 bits (LAMMPS tagint may be 64 bits wide)
             off = rng.choice([2 ** 31 - 2, 2 ** 32, 2 ** 40 + 3, 2 ** 53 - 100])
             ids = [off + k for k in ids]
+        elif rng.random() < 0.25 and n > 1:
+            # distinct ids that agree in their low 8 / 16 / 32 bits (keys packed into a narrower integer collide)
+            m = rng.choice([2 ** 8, 2 ** 16, 2 ** 32])
+            ids = [ids[0] + j * m for j in range(n)] if rng.random() < 0.5 else [ids[j] + (j % 3) * m for j in range(n)]
         if rng.random() < 0.1 and n > 1:
             ids[0] = ids[1]                       # duplicate ids: both sides refuse
         d['props'] = dict([('atom_id', (True, (), [[v] for v in ids]))] + list(d['props'].items()))
@@ -2164,6 +2281,7 @@ def gen_dump_case(rng, i, wu_p=0.25, raw=0.12, specials=0.0):
     if prop_names is not None and rng.random() < 0.3:
         explicit = rng.choice(['prop_info', 'lists'])
     out, pre = gen_channel(rng, 'a.dump')
+    pick_int_dtypes(rng, d)
     wu = gen_wu(rng, wu_p)
     ts = rng.choice([0, 0, 1, 12, 100, 250000, 25000, 10 ** 9, 2 ** 31, 3 * 10 ** 9, 2 ** 40 + 7, 127, 255, 65535, 2 ** 24 + 2])
     c = {'kind': 'dump', 'd': scale_desc(d, wu), 'units': units, 'ff': ff, 'prop_names': prop_names, 'explicit': explicit,
@@ -2230,8 +2348,17 @@ def gen_poscar_case(rng, i, raw=0.12):
     if rng.random() < raw:
         ff = raw_format(rng, ff)
     out, pre = gen_channel(rng, 'POSCAR')
-    return {'kind': 'poscar', 'd': d, 'coordstyle': coordstyle, 'scale': scale, 'symbols': symbols, 'symarg': symarg,
-            'header': header, 'ff': ff, 'out': out, 'pre': pre}
+    pick_int_dtypes(rng, d)
+    c = {'kind': 'poscar', 'd': d, 'coordstyle': coordstyle, 'scale': scale, 'symbols': symbols, 'symarg': symarg,
+         'header': header, 'ff': ff, 'out': out, 'pre': pre}
+    # the factor as python int (a whole number), numpy float / integer scalar; the symbols as a tuple
+    forms = ['float64'] + (['float32'] if float(_np().float32(scale)) == scale else []) \
+        + (['int', 'int64', 'int32', 'uint8'] if scale == int(scale) and 0 < scale < 200 else [])
+    if rng.random() < 0.35:
+        c['sform'] = rng.choice(forms)
+    if isinstance(symarg, list) and rng.random() < 0.3:
+        c['symform'] = 'tuple'
+    return c
 
 
 def default_table_cols(d):
@@ -2271,11 +2398,13 @@ def gen_table_case(rng, i, wu_p=0.25, raw=0.12, specials=0.0):
     if defaults:
         cols = default_table_cols(d)
     out, pre = gen_channel(rng, 'table.txt')
+    pick_int_dtypes(rng, d)
     wu = gen_wu(rng, wu_p)
     ff = pick_format(rng, units, raw, g_ok=specials > 0)
     zero_flag_finite(d, ff)
     return {'kind': 'table', 'd': scale_desc(d, wu), 'units': units, 'ff': ff,
-            'cols': cols, 'header': rng.random() < 0.5, 'out': out, 'pre': pre, 'wu': wu, 'defaults': defaults}
+            'cols': cols, 'header': rng.random() < 0.5, 'out': out, 'pre': pre, 'wu': wu, 'defaults': defaults,
+            'hform': rng.choice([None, None, 'int', 'np'])}
 
 
 def dump_props_for_wire(c):
@@ -2358,15 +2487,15 @@ def real_call(c):
     if c['kind'] == 'data':
         sa, ua = call_args(c)
         return real_data(c['d'], sa, ua, c['ff'], c['natypes'], c['fname'], c.get('opts'), c.get('pre', False),
-                         c.get('potential'))
+                         c.get('potential'), c.get('ntform'))
     if c['kind'] == 'dump':
         return real_dump(c['d'], c['units'], c['ff'], c['prop_names'], c.get('timestep', 0), c.get('out'),
                          c.get('explicit'), c.get('pre', False), c.get('tsform'))
     if c['kind'] == 'poscar':
         return real_poscar(c['d'], c['ff'], c['coordstyle'], c['scale'], c['header'], c.get('symarg', c['symbols']),
-                           c.get('out'), c.get('pre', False))
+                           c.get('out'), c.get('pre', False), c.get('sform'), c.get('symform'))
     return real_table(c['d'], c['ff'], c['cols'], c['units'], c['header'], c.get('out'), c.get('pre', False),
-                      c.get('defaults', False))
+                      c.get('defaults', False), c.get('hform'))
 
 
 def case_sample(c):
@@ -2584,7 +2713,7 @@ def _run_cases(ctx, cases, tie):
             continue
         mo = o.split()
         if real[0] == 'err:channel':
-            ctx.disagree(f'{kind}:channel', f'{kind} dump: {real[1]}', {'op': kind, 'case': case_replay(c)})
+            ctx.disagree(f'{kind}:{real[2]}', f'{kind} dump: {real[1]}', {'op': kind, 'case': case_replay(c)})
             continue
         if real[0] != 'ok':
             if mo[0] == 'ok' or o != real[0]:
@@ -2791,7 +2920,7 @@ def sized_desc(spec):
     # the sites are relative coordinates of an orthogonal grid; in the tilted cell use them as box-relative ones
     pos = (pos / L) @ vects + origin
     pbc = [bool((seed >> i) & 1) for i in range(3)] if seed % 4 else [True, True, True]
-    out = np.arange(0, n, 97)
+    out = np.arange(spec.get('out_from', 0), n, 97)
     for i in range(3):
         if pbc[i]:
             pos[out] += np.outer(rs.randint(-2, 3, size=len(out)), vects[i])
@@ -2809,8 +2938,11 @@ def sized_desc(spec):
         else:
             nc = 3 if name in ('velocity', 'force') else 1
             props[name] = (False, () if nc == 1 else (3,), (rs.randint(-128, 129, size=(n, nc)) / 16).tolist())
-    return {'pbc': pbc, 'vects': vects.tolist(), 'origin': origin.tolist(), 'atype': atype.tolist(), 'natypes': int(max(atype.max(), ntypes)),
-            'pos': pos.tolist(), 'props': props, 'symbols': None, 'regime': 'grid'}
+    d = {'pbc': pbc, 'vects': vects.tolist(), 'origin': origin.tolist(), 'atype': atype.tolist(), 'natypes': int(max(atype.max(), ntypes)),
+         'pos': pos.tolist(), 'props': props, 'symbols': None, 'regime': 'grid'}
+    if spec.get('idt'):
+        d['idt'] = dict(spec['idt'])
+    return d
 
 
 def sized_case(rng, kind, n):
@@ -2848,6 +2980,17 @@ def sized_case(rng, kind, n):
             c['fname'] = rng.choice([names[kind], '<stream>'])
         else:
             c['out'] = rng.choice(['path:' + names[kind], 'stream'])
+    # the atoms outside the cell start at this index (only the last atom; only those beyond a power of two, ...)
+    p2 = 1
+    while 2 * p2 < n:
+        p2 *= 2
+    spec['out_from'] = rng.choice([0, 0, n - 1, p2, p2 + 1, n // 2, max(n - 98, 0), min(4096, n - 1), min(1000, n - 1)])
+    if rng.random() < 0.4:
+        spec['idt'] = {'atype': rng.choice(['uint8', 'int16', 'int32', 'uint16', 'uint64'])}
+        if spec.get('ids') and rng.random() < 0.7:
+            spec['idt']['atom_id'] = rng.choice(['int32', 'uint32', 'uint64'])
+        if 'm_id' in spec['props']:
+            spec['idt']['m_id'] = rng.choice(['uint8', 'int16', 'uint16'])
     c['sized'] = spec
     c['d'] = sized_desc(spec)
     if kind == 'table':
@@ -3083,7 +3226,7 @@ def _oracle_case(ctx, c, report):
     ctx.stats.case('oracle:' + kind, repr(case_replay(c))[:4000], nontrivial=real[0] == 'ok', sample=None)
     rp = {'op': kind, 'case': case_replay(c)}
     if real[0] == 'err:channel':
-        report(f'{kind}:channel', f"System.dump('{ {'data': 'atom_data', 'dump': 'atom_dump'}.get(kind, kind)}'): {real[1]}", rp)
+        report(f'{kind}:{real[2]}', f"System.dump('{ {'data': 'atom_data', 'dump': 'atom_dump'}.get(kind, kind)}'): {real[1]}", rp)
         return
     if not one_line_strings(c):
         if real[0] != 'err:assert':
